@@ -203,13 +203,10 @@ pub fn def(ctx: &Ctx) -> PropertyDef {
     let quick = ctx.quick();
     let workers = ctx.workers;
     for p in ilv_programs() {
-        scenarios.push(program_scenario(p, ilv_oracle(), move |_c| IlvCfg {
-            bounds: if quick { vec![0, 1, 2] } else { vec![0, 1, 2, 3, 4] },
-            workers,
-            split_depth: 6,
-            time_cap_s: Some(if quick { 5.0 } else { 300.0 }),
-            max_executions: None,
-        }));
+        scenarios.push({
+                let nthreads = p.threads.len();
+                program_scenario(p, ilv_oracle(), move |c| crate::harness::ilv::tier_cfg(c, nthreads))
+            });
     }
     let mut assumptions = COMMON_ASSUMPTIONS.to_vec();
     assumptions.push("readability before a put is taken from the state snapshot (entry present, not soft-deleted, clock not past its expiry); the same BFS checks in every state that all seven read variants return exactly that");
